@@ -247,7 +247,9 @@ func parse(ctx context.Context, tree *parser.Thrift, mode meta.ParseServiceMode,
 		annotations: []parser.Annotation{},
 	}
 
-	structsCache := compilingCache{}
+	// one compiling cache per IDL file: the cache is keyed by the type name as written in that file, and the functions a
+	// service inherits through `extends` are compiled against the tree of the file that declares them
+	structsCaches := map[*parser.Thrift]compilingCache{}
 
 	// support one service
 	svcs := tree.Services
@@ -295,6 +297,11 @@ func parse(ctx context.Context, tree *parser.Thrift, mode meta.ParseServiceMode,
 		}
 		for _, p := range funcs {
 			injectAnnotations((*[]*parser.Annotation)(&p.fn.Annotations), next)
+			structsCache := structsCaches[p.tree]
+			if structsCache == nil {
+				structsCache = compilingCache{}
+				structsCaches[p.tree] = structsCache
+			}
 			if err := addFunction(ctx, p.fn, p.tree, sDsc, structsCache, sopts); err != nil {
 				return nil, err
 			}
